@@ -21,7 +21,7 @@ CLAIM = {
          "has exactly the JVMS field sequence (widths, count widths, element types, external table lengths), the 17 pool tags, 9 "
          "verification-type tags, 13 element_value tags, 7 frame_type ranges (with the implied offset_delta/k formulas and write/read inverse) "
          "and 28 attribute names equal the JVMS tables, unknown tags are rejected, the catch-all attribute is last; (R20.3) constant_pool_count, "
-         "the number of entries read, the index base of pool_has_utf8, pool threading, and two-slot accounting for Long/Double; (R20.4) for each of "
+         "the number of entries read, the index base and result table of the pool lookup the attribute guards call (partial evaluation over abstract pools: no pool / index outside / each non-Utf8 kind / Utf8), pool threading, and two-slot accounting for Long/Double; (R20.4) for each of "
          "the 15 structs and 75 variants the expanded _write, _read and _len perform exactly the DSL's item sequence (big-endian, buffer size = "
          "width, count before elements, constants checked/discarded, fields bound to their own names) and the four public entry points call them; "
          "(R20.5) in the macro definition the three generated functions enumerate the same metavariable sequence at the same repetition depth and "
